@@ -512,7 +512,14 @@ Next ==
 
 Spec == Init /\ [][Next]_vars
 
-\* GEN: one line per history
+\* GEN: one line per history. `hint` only steers the driver's sub-sampling (never a verdict).
+Hint ==
+  [warn  |-> Cardinality(DocWarnings),
+   dup   |-> \E pk \in HeadRules : Cardinality({j \in 1..Len(tree[pk[1]].rules) :
+                                       Key(tree[pk[1]].rules[j]) = Key(tree[pk[1]].rules[pk[2]])}) >= 2,
+   moved |-> \E p \in Paths : tree[p].present /\ origin[p] # p,
+   acc   |-> UNION {RefAccept(pk[1], pk[2]) : pk \in HeadRules}]
 EmitCase ==
-  (phase = "branch" /\ ncommit + nbase >= 1) => PrintT(<<"CASE", ToJson([fork |-> fork, log |-> log])>>)
+  (phase = "branch" /\ ncommit + nbase >= 1) =>
+     PrintT(<<"CASE", ToJson([fork |-> fork, log |-> log, hint |-> Hint])>>)
 =============================================================================
